@@ -26,6 +26,7 @@ import (
 	"verifharness/internal/gen"
 	"verifharness/internal/hx"
 	"verifharness/internal/ref"
+	"verifharness/internal/sched"
 )
 
 // ---------------------------------------------------------------- fault error kinds
@@ -115,9 +116,40 @@ type trackStore struct {
 	started     map[desync.ChunkID]int // GetChunk calls per ID since the instance started
 	failed      map[desync.ChunkID]int // failed GetChunk calls per ID since the instance started
 	faillog     []failRec              // every failed GetChunk of the case, in order
+	epoch       int                    // bumped when an instance is retired
+	strayFails  int                    // failures delivered to a retired instance
+}
+
+// instStore is what one instance gets as its store: calls made through the view of a retired
+// instance (none are expected once quiesce has returned) never count as "a fetch failed in
+// this instance".
+type instStore struct {
+	*trackStore
+	epoch int
+}
+
+func (v instStore) GetChunk(id desync.ChunkID) (*desync.Chunk, error) {
+	return v.trackStore.get(id, v.epoch)
 }
 
 func (s *trackStore) GetChunk(id desync.ChunkID) (*desync.Chunk, error) {
+	return s.get(id, s.currentEpoch())
+}
+
+func (s *trackStore) currentEpoch() int {
+	s.mu.Lock()
+	defer s.mu.Unlock()
+	return s.epoch
+}
+
+// retire ends the current instance's epoch.
+func (s *trackStore) retire() {
+	s.mu.Lock()
+	s.epoch++
+	s.mu.Unlock()
+}
+
+func (s *trackStore) get(id desync.ChunkID, epoch int) (*desync.Chunk, error) {
 	s.mu.Lock()
 	s.inflight++
 	s.total++
@@ -129,10 +161,12 @@ func (s *trackStore) GetChunk(id desync.ChunkID) (*desync.Chunk, error) {
 	s.inflight--
 	if err == nil {
 		s.okGets++
-	} else {
+	} else if epoch == s.epoch {
 		s.failed[id]++
 		s.failedTotal++
 		s.faillog = append(s.faillog, failRec{id, errLabel(err)})
+	} else {
+		s.strayFails++
 	}
 	s.mu.Unlock()
 	return c, err
@@ -199,19 +233,22 @@ type world struct {
 	lineage                 int // generation of the cache file's content (bumped when the harness deletes or truncates it)
 
 	// current instance
-	alive           bool // NewSparseFile succeeded and no read panicked
-	sf              *desync.SparseFile
-	mnt             *desync.SparseMountFS
-	opener          fs.NodeOpener
-	reader          fs.NodeReader
-	handles         []*desync.SparseFileHandle
-	staleBits       map[int]bool // chunks the state file found at restart marks present although the cache file does not hold them
-	withState       bool         // restart found a state file of the right length with >= 1 bit and a cache file of the right size
-	marked          []int        // chunks marked in the init state of a pre-load
-	preGets         int          // store.total when the instance started
-	preFailed       int          // store.failedTotal when the instance started
-	preloadExpected bool         // an init state was given and no matching save-state short-cuts NewSparseFile
-	preEffective    bool         // the instance was started with an init state that marks >= 1 chunk and no matching save-state
+	alive        bool // NewSparseFile succeeded and no read panicked
+	sf           *desync.SparseFile
+	mnt          *desync.SparseMountFS
+	opener       fs.NodeOpener
+	reader       fs.NodeReader
+	handles      []*desync.SparseFileHandle
+	staleBits    map[int]bool // chunks the state file found at restart marks present although the cache file does not hold them
+	withState    bool         // restart found a state file of the right length with >= 1 bit and a cache file of the right size
+	marked       []int        // chunks marked in the init state of a pre-load
+	preGets      int          // store.total when the instance started
+	preFailed    int          // store.failedTotal when the instance started
+	base         int          // runtime.NumGoroutine() before the first instance was created
+	baseSet      bool
+	aborted      bool // an old instance's loaders did not end: no further ops, no further verdicts
+	lostToPanic  bool
+	preEffective bool // the instance was started with an init state that marks >= 1 chunk and no matching save-state
 
 	hot atomic.Bool // concurrent activity: perturbation enabled
 	pi  atomic.Int64
@@ -438,6 +475,7 @@ func (w *world) judge(tag string, rd Read, res result, before, after map[desync.
 		}
 		w.fail(sig, "%s ReadAt(off=%d, len=%d) on an index of %d chunks / %d bytes panicked: %s", tag, rd.Off, rd.Len, w.nch, L, clip(res.panicked, 1500))
 		w.alive = false // the panic leaves the loader's RWMutex read-locked: the instance is unusable
+		w.lostToPanic = true
 		w.class("instance-lost-to-panic")
 		return
 	}
@@ -737,47 +775,39 @@ func (w *world) populated(cache []byte, i int) bool {
 }
 
 // teardown retires the current instance: waits for its pre-loader, closes the handles.
-func (w *world) teardown() {
-	if w.sf == nil && w.mnt == nil {
+// quiesce waits until every goroutine the current (or a failed) instance started has ended: a
+// restart stands for a new process, the old one - with its background pre-loader - is gone.
+// The pre-load workers end once the feeder has walked the index; nothing in this harness
+// holds them (no gates). If they do not end in time the case stops without further verdicts.
+func (w *world) quiesce() {
+	if w.aborted || w.baseSet == false {
 		return
 	}
-	if len(w.marked) > 0 {
-		nulls := 0
+	patience := 20 * time.Second
+	if w.lostToPanic {
+		patience = 2 * time.Second // a panicking read leaves the loader lock held; its workers may never end
+	}
+	if !sched.QuiesceFor(w.base, patience) {
+		w.class("inconclusive:old-instance-still-loading")
+		w.aborted = true
+	}
+}
+
+func (w *world) teardown() {
+	if w.sf == nil && w.mnt == nil {
+		w.quiesce()
+		return
+	}
+	if w.alive {
 		for _, i := range w.marked {
 			if w.isNull[i] {
-				if w.preloadExpected {
-					nulls++
-				}
 				continue
 			}
-			// a one-byte read of a marked chunk returns only after the chunk's load attempt
-			// (by a pre-load worker or by this read) is over
-			if w.alive {
-				w.read("drain", Read{Off: int64(w.spans[i].Start), Len: 1})
-			}
-		}
-		// null chunks are never loaded by reads: wait (bounded, no verdict attached) for
-		// the pre-loader to have fetched them and for every successful fetch to have
-		// passed the hook that follows the write
-		nullID := desync.ChunkID(ref.ID(make([]byte, w.c.Sizes.Max), false))
-		quiet := false
-		for it := 0; it < 4000; it++ {
-			w.store.mu.Lock()
-			quiet = w.store.inflight == 0 && w.store.hooks == w.store.okGets && (!w.alive || w.store.started[nullID] >= nulls)
-			w.store.mu.Unlock()
-			if quiet {
-				break
-			}
-			if it < 200 {
-				runtime.Gosched()
-			} else {
-				time.Sleep(50 * time.Microsecond)
-			}
-		}
-		if !quiet {
-			w.class("quiesce:gave-up")
+			// one-byte reads of the chunks an init state marks: reads that race the pre-loader
+			w.read("drain", Read{Off: int64(w.spans[i].Start), Len: 1})
 		}
 	}
+	w.quiesce()
 	w.hot.Store(false)
 	for _, h := range w.handles {
 		if h != nil {
@@ -792,6 +822,7 @@ func (w *world) teardown() {
 	w.preEffective = false
 	w.handles, w.sf, w.mnt, w.opener, w.reader, w.marked = nil, nil, nil, nil, nil, nil
 	w.alive = false
+	w.store.retire()
 }
 
 func (w *world) wrongLen(base []byte, sel int) []byte {
@@ -832,6 +863,12 @@ func (w *world) garbage(seed uint64, sel int) []byte {
 
 func (w *world) restart(op Op) {
 	w.teardown()
+	if w.aborted {
+		return
+	}
+	if !w.baseSet {
+		w.base, w.baseSet = runtime.NumGoroutine(), true
+	}
 	w.stats["restarts"]++
 
 	// ---- cache file
@@ -1015,7 +1052,7 @@ func (w *world) restart(op Op) {
 			}
 		}()
 		if op.Mount {
-			w.mnt, nerr = desync.NewSparseMountFS(w.idx, "blob", w.store, w.cache, opt)
+			w.mnt, nerr = desync.NewSparseMountFS(w.idx, "blob", instStore{w.store, w.store.currentEpoch()}, w.cache, opt)
 			if nerr != nil {
 				w.mnt = nil
 				return
@@ -1034,7 +1071,7 @@ func (w *world) restart(op Op) {
 			w.class("mount")
 			return
 		}
-		w.sf, nerr = desync.NewSparseFile(w.cache, w.idx, w.store, opt)
+		w.sf, nerr = desync.NewSparseFile(w.cache, w.idx, instStore{w.store, w.store.currentEpoch()}, opt)
 		if nerr != nil {
 			w.sf = nil
 		}
@@ -1047,7 +1084,6 @@ func (w *world) restart(op Op) {
 		return
 	}
 	w.marked = marked
-	w.preloadExpected = op.Init != "" && !matches
 	nh := 1 + op.Handles%3
 	if nh < 1 {
 		nh = 1
@@ -1078,6 +1114,9 @@ func (w *world) restart(op Op) {
 // ---------------------------------------------------------------- other ops
 
 func (w *world) apply(op Op) {
+	if w.aborted {
+		return
+	}
 	switch op.Kind {
 	case "read":
 		if op.R != nil {
